@@ -181,6 +181,63 @@ def dtls_scripts(r, args, n):
     return out
 
 
+def early_scripts(new):
+    """TLS 1.3 early-data matrix: accepted 0-RTT with server 0.5-RTT records (1, 2, many, > 256) before the client's
+    Finished, NewSessionTicket after them, data both ways afterwards; client writes between its Finished and the
+    ticket; early data refused (ticket without allowance on this server, external PSK); HelloRetryRequest x PSK x early data"""
+    t = " ticket=1 smaxed=16384"
+    first = new + t + " seed=41 ; hs ; "
+    def second(seed, extra=""):
+        return new + t + " resume=1 keepkeys=1%s seed=%d ; " % (extra, seed)
+    out = []
+    for i, srv in enumerate(("app s 30", "app s 30 ; app s 31", "appn s 20 25", "appn s 1 300", "appw s 0 ; appw s 17 ; app s " + hexpat(17000))):
+        out.append(first + second(50 + i) + "app c 6561726c79 ; step c2s 2 ; " + srv + " ; hs ; app s 6c61746572 ; app c 6c61746572 ; appn s 5 3 ; hs ; closure c ; hs")
+    # the client writes between its Finished and the arrival of the NewSessionTicket
+    out.append(first + second(56) + "app c 6561726c79 ; step c2s 2 ; app s 30 ; step s2c 30 ; app c 40 ; app c 41 ; step c2s 2 ; app c 42 ; app s 32 ; hs ; app s 33 ; app c 43 ; hs")
+    # 0.5-RTT records interleaved with the arrival of several early-data records
+    out.append(first + second(57) + "appn c 10 3 ; step c2s 2 ; app s 30 ; step c2s 1 ; app s 31 ; step c2s 1 ; app s 32 ; hs ; app s 33 ; hs")
+    # the server writes when only the ClientHello has arrived; the client sends no early data although it may
+    out.append(first + second(58) + "app c 6561726c79 ; step c2s 1 ; app s 30 ; app s 31 ; hs ; app s 32 ; app c 44 ; hs")
+    out.append(first + second(59) + "step c2s 1 ; app s 30 ; hs ; app s 31 ; app c 45 ; hs")
+    # alerts in the 0.5-RTT phase
+    out.append(first + second(60) + "app c 6561726c79 ; step c2s 2 ; app s 30 ; closure s ; hs")
+    out.append(first + second(61) + "app c 6561726c79 ; step c2s 2 ; app s 30 ; inj s " + GARBAGE.hex() + " ; app s 31 ; hs")
+    # early data refused: external PSK (with and without allowance), ticket from a server that allowed it presented to one that does not
+    out.append(new + " psk=1 seed=62 ; app c 6561726c79 ; step c2s 2 ; app s 30 ; hs ; app s 31 ; app c 45 ; hs ; closure s ; hs")
+    out.append(new + " psk=1 smaxed=16384 seed=63 ; app c 6561726c79 ; appn c 8 2 ; step c2s 2 ; app s 30 ; hs ; app s 31 ; app c 45 ; hs")
+    out.append(first + new + " ticket=1 resume=1 keepkeys=1 seed=64 ; app c 6561726c79 ; step c2s 2 ; app s 30 ; hs ; app s 31 ; app c 46 ; hs")
+    # HelloRetryRequest x PSK x early data
+    out.append(first + second(65, " sgroup=24") + "app c 6561726c79 ; step c2s 2 ; app s 30 ; hs ; app s 31 ; app c 46 ; hs")
+    out.append(new + " psk=1 smaxed=16384 sgroup=24 seed=66 ; app c 6561726c79 ; step c2s 2 ; app s 30 ; hs ; app s 31 ; app c 46 ; hs")
+    return out
+
+
+def random_early(r, new, nops):
+    """accepted-0-RTT resumption followed by a random interleaving of deliveries and writes of both sides"""
+    t = " ticket=1 smaxed=16384"
+    ops = [new + t + " seed=%d ; hs" % r.randrange(1, 1 << 30), new + t + " resume=1 keepkeys=1 seed=%d" % r.randrange(1, 1 << 30)]
+    for _ in range(r.choice([0, 1, 1, 3])):
+        ops.append("app c %s" % hexpat(r.choice([1, 5, 100, 2000]), r.randrange(256)))
+    for _ in range(nops):
+        x = r.random(); side = r.choice("cs")
+        if x < 0.35:
+            ops.append("step %s %d" % (r.choice(["c2s", "s2c"]), r.choice([1, 1, 2, 30])))
+        elif x < 0.65:
+            ops.append("app %s %s" % (side, hexpat(r.choice([1, 5, 16, 100, 5000]), r.randrange(256))))
+        elif x < 0.75:
+            ops.append("appn %s %d %d" % (side, r.choice([1, 16]), r.choice([2, 5])))
+        elif x < 0.82:
+            ops.append("appw %s %d" % (side, r.choice([0, 1, 100])))
+        elif x < 0.92:
+            ops.append("hs")
+        elif x < 0.96:
+            ops.append("closure %s" % side)
+        else:
+            ops.append("inj %s %s" % (side, GARBAGE.hex()))
+    ops.append("hs ; app s 7a ; app c 7b ; hs")
+    return " ; ".join(ops)
+
+
 def fault_scripts(new):
     """psGetPrngLocked fails exactly once while a CBC record is being written"""
     return [
@@ -554,6 +611,12 @@ def build_scripts(ck):
         if cls == "13":
             for s in hrr_scripts(new):
                 scripts.append(s); meta.append((name, "hrr"))
+            if "cauth" not in name:
+                for s in early_scripts(new):
+                    scripts.append(s); meta.append((name, "early"))
+                r = ck.rng("early/" + name)
+                for _ in range(ck.budget(4, 80)):
+                    scripts.append(random_early(r, new, r.choice([5, 10, 18]))); meta.append((name, "early-random"))
         if cls in ("cbc", "cbc11"):
             for s in fault_scripts(new + " seed=%d" % (ck.seed + 2)):
                 scripts.append(s); meta.append((name, "fault"))
